@@ -3,7 +3,7 @@
 #  builds, baseline tests pass, demo fails with the change and passes without it.
 set -u
 id=$1
-src=/tmp/seed/$id
+src=${SEED_ROOT:-/tmp/seed}/$id
 wt=/tmp/vseed_$id
 export GOFLAGS=-mod=mod GOPROXY=off GOSUMDB=off
 git -C /repo worktree remove --force $wt 2>/dev/null
